@@ -162,7 +162,7 @@ def classify_line(line):
 def accounting_case(draw):
     base = ["from Reduino.Actuators import Led", "from Reduino.Communication import SerialMonitor", "from Reduino.Utils import sleep", "from Reduino import target",
             "target('COM3')", "mon = SerialMonitor(9600)", "led = Led(13)", "i0 = 1", "i1 = 2", "w0 = 2", "items = [1, 2, 3]"]
-    picks = draw(st.lists(st.sampled_from(UNSUPPORTED), min_size=1, max_size=3))
+    picks = [UNSUPPORTED[i] for i in draw(st.lists(st.integers(0, len(UNSUPPORTED) - 1), min_size=1, max_size=3))]
     place = draw(st.sampled_from(["top", "if", "for", "def", "main", "main_if", "while"]))
     body = []
     kinds = []
